@@ -366,7 +366,9 @@ def C09(ctx):
 
 
 def td_jobs(ctx, n, segs, nmax=5):
-    return [("td_%d" % i, ["record", "topdown", "--seed", ctx.seed * 1000 + i, "--segments", segs, "--nmax", nmax + (i % 2)])
+    # every third trace: builders over up to 90 labels, the CNFs' variables on scattered labels (recorded in the compact numbering)
+    return [("td_%d" % i, ["record", "topdown", "--seed", ctx.seed * 1000 + i, "--segments", segs, "--nmax", nmax + (i % 2)]
+             + (["--labels", 90] if i % 3 == 2 else []))
             for i in range(n)]
 
 
